@@ -146,6 +146,7 @@ func (e *Eng) drain(fr *frame, r Iface) (SliceVal, Value) {
 			acc = SliceVal{o, z, nl, nl}
 		}
 		if !isNilIface(err) {
+			acc = e.splitLen(acc)
 			if e.Decide(e.equal(errT, err, eof)) {
 				return acc, Iface{}
 			}
@@ -156,6 +157,23 @@ func (e *Eng) drain(fr *frame, r Iface) (SliceVal, Value) {
 			panic(pathEnd{kind: endUnwind, msg: "reader returned (0, nil)"})
 		}
 	}
+}
+
+// splitLen case-splits the length of a freshly produced byte string when the harness asked for
+// case-split sizes (keeps offsets derived from it concrete).
+func (e *Eng) splitLen(s SliceVal) SliceVal {
+	if s.Len.IsConst() || e.path == nil || e.path.concSplit == 0 || e.curHS == nil || !e.curHS.ConcAlloc {
+		return s
+	}
+	if r := e.path.binds.rewrite(s.Len, e.tb); r.IsConst() {
+		s.Len, s.Cap = r, r
+		return s
+	}
+	if e.Decide(e.tb.Ule(s.Len, e.tb.I64(int64(e.path.concSplit)))) {
+		v := e.tb.Const(64, e.concretize(s.Len, e.path.concSplit+2))
+		s.Len, s.Cap = v, v
+	}
+	return s
 }
 
 // readFullFast handles *bytes.Reader and *bytes.Buffer sources with one three-way case split
